@@ -407,6 +407,7 @@ class Case:
         self.ctx = ctx
         self.rng = rng
         self.quick = quick
+        self.wire = []
 
     def fold(self, t):
         return rp.fold(t, self.rng, self.rng.choice((0.0, 0.5, 0.9)))
@@ -423,6 +424,7 @@ class Case:
                 t = f(v)
                 args.append(self.fold(t))
                 desc.append(tb.pretty(t))
+                self.wire.append(tb.show(t))
             elif kind == 'prem':
                 t = f(v)
                 if donor is not None and donor[0] == i:
@@ -433,13 +435,15 @@ class Case:
                     mod.add_axiom(ax)
                     args.append(mod.load_axiom(ax))
                     desc.append('|- ' + tb.pretty(t) + '   (axiom)')
+                self.wire.append('|- ' + tb.show(t))
             elif kind == 'int':
-                args.append(f(v)); desc.append(f(v))
+                args.append(f(v)); desc.append(f(v)); self.wire.append(f(v))
             elif kind == 'ints':
-                args.append(list(f(v))); desc.append(list(f(v)))
+                args.append(list(f(v))); desc.append(list(f(v))); self.wire.append(list(f(v)))
             elif kind == 'pats':
                 ts = f(v)
                 args.append([self.fold(t) for t in ts]); desc.append([tb.pretty(t) for t in ts])
+                self.wire.append([tb.show(t) for t in ts])
             else:
                 raise ValueError(kind)
         return args, desc
@@ -541,7 +545,14 @@ class Case:
         profile = PROFILES[j % len(PROFILES)]
         G = Gen(rng, profile)
         use_taut = e.cls == 'Tautology' or rng.random() < 0.5
-        mod = (real.Tm.Tautology if use_taut else real.PRm.Propositional)()
+        try:
+            mod = (real.Tm.Tautology if use_taut else real.PRm.Propositional)()
+        except Exception as ex:
+            who = culprit_of(ex, '__init__', real.codes)
+            ctx.violation(f'module_construction_raises:{who}:{type(ex).__name__}', f'constructing the {"Tautology" if use_taut else "Propositional"} module raised {type(ex).__name__} '
+                          f'(its own proof expressions call {who} with the default arguments)', {'module': 'Tautology' if use_taut else 'Propositional', 'error': repr(ex)[:300], 'raised_inside': who,
+                                                                                                   'reproducer': ('Tautology()' if use_taut else 'Propositional()')})
+            return
         prem_idx = [i for i, (k, _) in enumerate(e.args) if k == 'prem']
         donor = None
         bound = None
@@ -567,6 +578,7 @@ class Case:
             for i in range(first, len(e.args)):
                 v[e.vars[i]] = tb.mv(i)
             ctx.count('args_omitted_defaults')
+        self.wire = []
         args, desc = self.build_args(e, v, mod, donor)
         try:
             want = tb.norm_py(e.concl(v))
@@ -574,7 +586,8 @@ class Case:
             ctx.count('schema_undefined_on_arguments')
             return
         nonmv = any(k != 'metavar' for k in G.kinds) or e.derive is not None and e.name in ('simplify_clause', 'prove_trivial_clause')
-        witness = {'entry': f'{e.cls}.{e.name}', 'advertised': e.doc, 'arguments': desc, 'profile': profile,
+        witness = {'entry': f'{e.cls}.{e.name}', 'advertised': e.doc, 'arguments': desc, 'arguments_wire': list(self.wire), 'profile': profile,
+                   'how_to_rebuild': 'arguments_wire are O1 terms in the wire grammar (tb.parse, tb.to_repo); a premise "|- T" is load_axiom of the axiom T added to the module',
                    'nested_premise_from': donor[2] if donor else None, 'module': type(mod).__name__}
         ctx.case((e.name, tuple(map(str, desc))), nontrivial=nonmv)
 
